@@ -49,7 +49,7 @@ theorem tableInv_decodeLL {B : Nat} {t : Table} (buf : Option Bytes) (h : TableI
     translation leaves named: it is the low-level model's -/
 theorem decode_step_src (t : Table) (pre b post : Bytes) (fuel : Nat)
     (hT : C17b.TableOk t) (hR : TableReg t) (hpre : 0 < pre.length)
-    (hlen : b.length < 2 ^ 31) (hmem : (pre ++ b ++ post).length < 2 ^ 63) (hf : b.length ≤ fuel) :
+    (hmem : (pre ++ b ++ post).length < 2 ^ 63) (hf : b.length ≤ fuel) :
     ∃ outs, Decoder_decode_obj fuel (tblSt t) (pre ++ b ++ post) pre.length b.length (SrcTec.tecmpExt fuel) =
         some (tblSt (decodeLL t (some b)).1, outs) ∧
       outs.map (Sum.elim toPacket SrcTec.tAbs) = (decodeLL t (some b)).2 := by
@@ -62,7 +62,7 @@ theorem decode_step_src (t : Table) (pre b post : Bytes) (fuel : Nat)
     · obtain ⟨hsrc, hmap⟩ := SrcTec.decode_tecmp_src (tblSt t) pre b post fuel toPacket hpre h8' h0 (by omega) hf
       rw [decodeLL_tecmp t b h8' h0]
       exact ⟨_, hsrc, hmap⟩
-    · obtain ⟨outs, h1, h2⟩ := decode_src t pre b post fuel (SrcTec.tecmpExt fuel) hT hR hpre h8' h0 hlen hmem hf
+    · obtain ⟨outs, h1, h2⟩ := decode_src t pre b post fuel (SrcTec.tecmpExt fuel) hT hR hpre h8' h0 hmem hf
       refine ⟨_, h1, ?_⟩
       rw [List.map_map, ← h2]
       rfl
@@ -72,12 +72,12 @@ theorem decode_step_src (t : Table) (pre b post : Bytes) (fuel : Nat)
     the invariant again (for `B + b.length`) and is the model's, and so are the packets -/
 theorem tableInv_preserved (B : Nat) (t : Table) (pre b post : Bytes) (fuel : Nat)
     (hI : TableInv B t) (hB : B + 65536 < 2 ^ 64) (hpre : 0 < pre.length)
-    (hlen : b.length < 2 ^ 31) (hmem : (pre ++ b ++ post).length < 2 ^ 63) (hf : b.length ≤ fuel) :
+    (hmem : (pre ++ b ++ post).length < 2 ^ 63) (hf : b.length ≤ fuel) :
     ∃ t' outs, Decoder_decode_obj fuel (tblSt t) (pre ++ b ++ post) pre.length b.length (SrcTec.tecmpExt fuel) =
         some (tblSt t', outs) ∧
       TableInv (B + b.length) t' ∧ t'.abs = (decode t.abs (some b)).1 ∧
       outs.map (Sum.elim toPacket SrcTec.tAbs) = (decode t.abs (some b)).2 := by
-  obtain ⟨outs, h1, h2⟩ := decode_step_src t pre b post fuel hI.1 (tableInv_reg hI hB) hpre hlen hmem hf
+  obtain ⟨outs, h1, h2⟩ := decode_step_src t pre b post fuel hI.1 (tableInv_reg hI hB) hpre hmem hf
   obtain ⟨_, k2, k3⟩ := C17b.decodeLL_refines t (some b) hI.1
   exact ⟨_, outs, h1, tableInv_decodeLL (some b) hI, k2, by rw [h2, k3]⟩
 
@@ -93,10 +93,10 @@ theorem tableInv_preserved_null (B : Nat) (t : Table) (m : Bytes) (size fuel : N
     statement `TableReg t → TableReg t'` is false (argued here, not proved in Lean), not merely unproved. -/
 theorem tableReg_preserved_partial (B : Nat) (t : Table) (pre b post : Bytes) (fuel : Nat)
     (hI : TableInv B t) (hB : B + b.length + 65536 < 2 ^ 64) (hpre : 0 < pre.length)
-    (hlen : b.length < 2 ^ 31) (hmem : (pre ++ b ++ post).length < 2 ^ 63) (hf : b.length ≤ fuel) :
+    (hmem : (pre ++ b ++ post).length < 2 ^ 63) (hf : b.length ≤ fuel) :
     ∃ t' outs, Decoder_decode_obj fuel (tblSt t) (pre ++ b ++ post) pre.length b.length (SrcTec.tecmpExt fuel) =
         some (tblSt t', outs) ∧ C17b.TableOk t' ∧ TableReg t' := by
-  obtain ⟨t', outs, h1, h2, _, _⟩ := tableInv_preserved B t pre b post fuel hI (by omega) hpre hlen hmem hf
+  obtain ⟨t', outs, h1, h2, _, _⟩ := tableInv_preserved B t pre b post fuel hI (by omega) hpre hmem hf
   exact ⟨t', outs, h1, h2.1, tableInv_reg h2 hB⟩
 
 /-! ## 2. decoder: a history of calls -/
@@ -115,11 +115,11 @@ def Call.arg : Call → Option Bytes
 /-- number of bytes handed over -/
 def Call.bytes (c : Call) : Nat := (c.arg.map List.length).getD 0
 
-/-- the hypotheses of `decode_total_src` on the buffer (`b.length < 2^31`: the C++ narrows `size - sizeof(CmpHeader)` to
-    `int curSize`), minus `8 ≤ b.length` -/
+/-- the hypotheses of `decode_total_src` on the buffer (non-null address, the memory below 2^63 bytes, fuel), minus
+    `8 ≤ b.length`.  No bound on the buffer's own length: `curSize` is a `std::size_t` -/
 def Call.Ok (fuel : Nat) : Call → Prop
   | .null _ _ => True
-  | .buf pre b post => 0 < pre.length ∧ b.length < 2 ^ 31 ∧ (pre ++ b ++ post).length < 2 ^ 63 ∧ b.length ≤ fuel
+  | .buf pre b post => 0 < pre.length ∧ (pre ++ b ++ post).length < 2 ^ 63 ∧ b.length ≤ fuel
 
 /-- the translated `Decoder::decode`, translated `TECMP::Decoder::Decode` plugged in, on one call -/
 def srcDecodeCall (fuel : Nat) (s : Decoder_St) : Call → Option (Decoder_St × List (PktOut ⊕ TPacket_St))
@@ -175,8 +175,8 @@ theorem decode_call_src (B : Nat) (t : Table) (c : Call) (fuel : Nat)
     obtain ⟨h1, h2, h3, h4⟩ := tableInv_preserved_null B t m size fuel hI
     exact ⟨t, [], h1, h2, h3, h4⟩
   | buf pre b post =>
-    obtain ⟨hpre, hlen, hmem, hf⟩ := hc
-    exact tableInv_preserved B t pre b post fuel hI hB hpre hlen hmem hf
+    obtain ⟨hpre, hmem, hf⟩ := hc
+    exact tableInv_preserved B t pre b post fuel hI hB hpre hmem hf
 
 /-- a history from ANY table satisfying the invariant -/
 theorem decode_history_from (fuel : Nat) : ∀ (calls : List Call) (B : Nat) (t : Table),
@@ -199,8 +199,8 @@ theorem decode_history_from (fuel : Nat) : ∀ (calls : List Call) (B : Nat) (t 
       rw [k3, h3]
 
 /-- **histories of decode calls, source level.**  For EVERY list of calls — null pointers, short buffers, TECMP messages, CMP
-    frames, in any order —, each buffer shorter than 2^31 bytes (`Call.Ok`: the `int curSize` narrowing) in its own memory
-    `pre ++ b ++ post` at a non-null address, the run of the translated `Decoder::decode` (with the translated
+    frames, in any order —, each buffer of ANY length in its own memory `pre ++ b ++ post` (shorter than 2^63 bytes, `Call.Ok`)
+    at a non-null address, the run of the translated `Decoder::decode` (with the translated
     `TECMP::Decoder::Decode`) from the freshly constructed decoder is DEFINED (never `none`: no read outside a buffer, no
     undefined behaviour in any call), returns call by call exactly the packets of the model's run from the model's initial state,
     and leaves the model's pending table (through `Table.abs`), which satisfies the invariant again.
@@ -219,31 +219,39 @@ theorem decode_history_src (calls : List Call) (fuel : Nat) (hok : ∀ c ∈ cal
   · rw [h3, ← e1]; rfl
   · rw [decodeEach_length, List.length_map]
 
-theorem bytes_sum_le (fuel : Nat) (calls : List Call) (hok : ∀ c ∈ calls, c.Ok fuel) :
-    (calls.map Call.bytes).sum ≤ calls.length * 2 ^ 31 := by
+theorem bytes_sum_le (M : Nat) (calls : List Call) (hsz : ∀ c ∈ calls, c.bytes ≤ M) :
+    (calls.map Call.bytes).sum ≤ calls.length * M := by
   induction calls with
-  | nil => exact Nat.le_refl _
+  | nil => exact Nat.zero_le _
   | cons c cs ih =>
-    have h1 := ih (fun c' hc' => hok c' (List.mem_cons_of_mem _ hc'))
-    have h2 : c.bytes ≤ 2 ^ 31 := by
-      have := hok c List.mem_cons_self
-      cases c with
-      | null m size => exact Nat.zero_le _
-      | buf pre b post => exact Nat.le_of_lt this.2.1
+    have h1 := ih (fun c' hc' => hsz c' (List.mem_cons_of_mem _ hc'))
+    have h2 : c.bytes ≤ M := hsz c List.mem_cons_self
     simp only [List.map_cons, List.sum_cons, List.length_cons]
     rw [Nat.add_mul]
     omega
 
-/-- the same with the bound on the whole history stated on the NUMBER of calls: any history of fewer than 2^32 calls -/
+/-- the same with the bound on the whole history stated on the NUMBER of calls and the size `M` of the largest buffer:
+    `calls.length * M + 2^16 < 2^64`.  With `M = 2^31` this is "any history of fewer than 2^32 calls, each buffer at most 2 GiB"
+    (`decode_history_src_count_2GiB`, the form this theorem had while `Call.Ok` itself bounded every buffer by 2^31) -/
 theorem decode_history_src_count (calls : List Call) (fuel : Nat) (hok : ∀ c ∈ calls, c.Ok fuel)
-    (hn : calls.length < 2 ^ 32) :
+    (M : Nat) (hsz : ∀ c ∈ calls, c.bytes ≤ M) (hn : calls.length * M + 65536 < 2 ^ 64) :
     ∃ t', srcDecodeRun fuel Decoder_default calls = some (tblSt t', (decodeEach DecState.empty (calls.map Call.arg)).2) ∧
       C17b.TableOk t' ∧ TableReg t' ∧
       t'.abs = (decodeAll tecmpDecode DecState.empty (calls.map Call.arg)).1 ∧
       (decodeEach DecState.empty (calls.map Call.arg)).2.flatten = (decodeAll tecmpDecode DecState.empty (calls.map Call.arg)).2 ∧
       (decodeEach DecState.empty (calls.map Call.arg)).2.length = calls.length := by
   apply decode_history_src calls fuel hok
-  have h := bytes_sum_le fuel calls hok
+  have h := bytes_sum_le M calls hsz
+  omega
+
+theorem decode_history_src_count_2GiB (calls : List Call) (fuel : Nat) (hok : ∀ c ∈ calls, c.Ok fuel)
+    (hsz : ∀ c ∈ calls, c.bytes ≤ 2 ^ 31) (hn : calls.length < 2 ^ 32) :
+    ∃ t', srcDecodeRun fuel Decoder_default calls = some (tblSt t', (decodeEach DecState.empty (calls.map Call.arg)).2) ∧
+      C17b.TableOk t' ∧ TableReg t' ∧
+      t'.abs = (decodeAll tecmpDecode DecState.empty (calls.map Call.arg)).1 ∧
+      (decodeEach DecState.empty (calls.map Call.arg)).2.flatten = (decodeAll tecmpDecode DecState.empty (calls.map Call.arg)).2 ∧
+      (decodeEach DecState.empty (calls.map Call.arg)).2.length = calls.length := by
+  apply decode_history_src_count calls fuel hok (2 ^ 31) hsz
   have : calls.length * 2 ^ 31 ≤ (2 ^ 32 - 1) * 2 ^ 31 := Nat.mul_le_mul_right _ (by omega)
   omega
 
@@ -509,7 +517,7 @@ example : (srcDecodeRun 64 Decoder_default (exCalls.take 1)).map (fun r => (r.1.
 theorem exCalls_ok : ∀ c ∈ exCalls, c.Ok 64 := by
   intro c hc
   simp only [exCalls, List.mem_cons, List.not_mem_nil, or_false] at hc
-  rcases hc with rfl | rfl <;> exact ⟨by decide, by decide, by decide, by decide⟩
+  rcases hc with rfl | rfl <;> exact ⟨by decide, by decide, by decide⟩
 
 /-- the hypotheses of `decode_history_src` are satisfied by this history … -/
 example : ∃ t', srcDecodeRun 64 Decoder_default exCalls =
